@@ -788,6 +788,12 @@ func (s *Sim) Apply(a Action) {
 				panic(err)
 			}
 		}
+	case "jobgone":
+		if j := s.getJob(TrialName(a.Key)); j != nil {
+			if err := s.store.Delete(ctx, j); err != nil {
+				panic(err)
+			}
+		}
 	case "metrics":
 		name := TrialName(a.Key)
 		if s.hasTrial(name) {
